@@ -189,6 +189,8 @@ def make_model(attrs, consts, pgn, mid, extra_self=None, iso=None, now_after_win
             return 10 ** 9 if now_after_window else 0
         if s == 'timedelta':
             return 600
+        if s == 'IsoName':
+            return Stub(new=True, name=12345, manufacturer_code=None)
         raise teval.EvalUnknown(show(t)[:80])
     params = {'pgn': pgn, 'already_combined': False, 'src': 7, 'source_id': 7, 'source_iso_name': iso, 'data': b'', 'dest': 255, 'priority': 3}
     self_attrs.setdefault('started_at', 5)
@@ -257,8 +259,12 @@ def filter_table(chk, program):
             except teval.EvalUnknown as u:
                 chk.unknown('FILTER-TABLE', '__init__', f"constructor expression not evaluable: {u}", DEC, cf['line'])
                 return
-            for (pgn, mid, kind) in ((P, ID, 'ordinary'), (consts['ISO_CLAIM_PGN'], consts['ISO_CLAIM_PGN_ID'], 'claim')):
-                model, msg = make_model(attrs, consts, pgn, mid)
+            cases = [(P, ID, 'ordinary', None, 'no-entry')]
+            for old_name, tag in ((None, 'no-entry'), (12345, 'same-NAME'), (999, 'other-NAME')):
+                cases.append((consts['ISO_CLAIM_PGN'], consts['ISO_CLAIM_PGN_ID'], 'claim', old_name, tag))
+            for (pgn, mid, kind, old_name, tag) in cases:
+                iso = None if old_name is None else Stub(name=old_name, manufacturer_code=None)
+                model, msg = make_model(attrs, consts, pgn, mid, iso=iso)
                 try:
                     res = outcome(program, stages, model)
                 except teval.EvalUnknown as u:
@@ -267,15 +273,19 @@ def filter_table(chk, program):
                 nmodels += 1
                 want = spec_permitted(pgn, mid, excl, incl)
                 got = res[0] == 'returned'
-                shape = _shape(cfg, pgn, mid)
+                shape = _shape(cfg, pgn, mid) + ('' if tag == 'no-entry' else '/' + tag)
                 key = (mode, kind, shape)
                 if got != want:
                     disagreements.setdefault(key, []).append((cfg, res))
                 else:
                     chk.ok('FILTER-TABLE', f"{mode}::{kind}::{shape}::{_cfgs(cfg)}", file=DEC, line=res[2], nontrivial=True)
                 if kind == 'claim':
-                    chk.check(res[3] is True, 'CLAIM-MAP', f"{mode}::{_cfgs(cfg)}", file=DEC, line=res[2], func=res[1] or '',
-                              expected='an address claim reaches the source-map store before any filter return', found=f"{res[0]} at {res[1]}:{res[2]}, stored={res[3]}")
+                    # data_int of the stand-in claim is 12345: the map must be written unless the stored NAME is that very number
+                    want_store = old_name != 12345
+                    chk.check(res[3] is want_store, 'CLAIM-MAP', f"{mode}::{tag}::{_cfgs(cfg)}", file=DEC, line=res[2], func=res[1] or '',
+                              expected=('an address claim reaches the source-map store before any filter return' if want_store else 'an unchanged NAME keeps the stored identity'),
+                              found=f"{res[0]} at {res[1]}:{res[2]}, stored={res[3]}",
+                              detail='' if res[3] is want_store else 'a filtered-out claim (e.g. a re-claim with a different NAME on a known address) must still update the source map')
                 # FILTER-PRE: numeric decisions are taken in _decode (before reassembly state)
                 if kind == 'ordinary':
                     by_number = (mode == 'exclude' and pgn in [x for x in excl if isinstance(x, int)]) or \
